@@ -64,6 +64,14 @@ def run_check(pid, tier, repo):
             first = line.strip()[:220]
     if r.returncode == 2:
         first = next((l for l in out.splitlines() if l.startswith("INCONCLUSIVE")), "")[:220]
+    # margin: how many violations the run reported (a catch resting on one or two witnesses is fragile against shifts of
+    # the random streams)
+    nviol = sum(1 for l in out.splitlines() if l.startswith("VIOLATION "))
+    m = re.search(r"\(\+(\d+) more violations\)", out)
+    if m:
+        nviol += int(m.group(1))
+    if r.returncode == 1:
+        first = "[%d] %s" % (nviol, first)
     return {0: "missed", 1: "caught", 2: "inconclusive"}.get(r.returncode, "rc=%d" % r.returncode), round(time.time() - t0, 1), first
 
 
